@@ -19,7 +19,10 @@ below, harness keys `c03:…`.
 
 Soundness half.  The full statement is given against an abstract evaluator (`check_sound_goal`); against
 the reference evaluator `Spec.eval` it is proved for the scalar fragment (`check_sound_partial`,
-`as_kind_exact_partial`; helper file `Proofs/SoundFrag.lean`), together with what can be said at the level
+`as_kind_exact_partial`; helper file `Proofs/SoundFrag.lean`), for the collection fragment
+(`check_sound_collections_partial`, `as_kind_exact_collections_partial`; `Proofs/SoundColl.lean`,
+`SoundCall.lean`, `SoundAsm.lean`) and, behind a hypothesis on the environment's functions, with calls
+(`check_sound_calls_partial`, `as_kind_exact_calls_partial`), together with what can be said at the level
 of types for all expressions (`as_kind_exact`, `accepted_type_is_synth`).
 -/
 namespace ExprModel.C03
@@ -449,13 +452,16 @@ theorem as_kind_exact_partial (cfg : CheckCfg) (c : Spec.SCfg) (henv : EnvConfor
 /-! ### soundness proved: the extended fragment (collections), against `Spec.eval`
 
 `inFrag2` adds to the scalar fragment: the closure variable `#`, `in` / `not in` on a slice, the range
-`..`, indexing and slicing a slice by integers, `len`, the predicate builtins `all none any one count` with
-a closure, and (`inFrag2 true`) calls of environment functions.  `typed2` is "every operand has a static type the construct's rule is sound for": scalar operands
-for the scalar operators and the predicate's body, a slice of scalars (`[]int`, `[]string`, …) where a
-collection is expected, an integer (not `interface{}`) index.  This excludes, explicitly, the constructs
-behind the known findings: the loose index rule (index typed `interface{}`), `filter`/`map` (static slice
-type differs from the run-time `[]interface{}`), arithmetic on `interface{}` operands, calls (retyped
-arguments).  `EnvConforms2`: the environment holds, under every name the checker types as a scalar or a
+`..`, `**`, indexing and slicing a slice by integers, `len`, array literals (a `[]interface{}` of which only
+the shape is claimed: usable under `in` and `len`), the conditional with branches of one value type, the
+predicate builtins `all none any one count` with a closure, and (`inFrag2 true`) calls of environment
+functions.  `typed2` is "every operand has a static type the construct's rule is sound for": scalar
+operands for the scalar operators and the predicate's body, a slice of scalars (`[]int`, `[]string`, …)
+where a collection is expected, an integer (not `interface{}`) index.  This excludes, explicitly, the constructs
+behind the known findings: the loose index rule (index typed `interface{}`), `filter`/`map` with the static
+slice type `[]T` (it differs from the run-time `[]interface{}`: they are in the fragment exactly when
+`cfg.dt.staticSliceOf = false`, the documented rule, and then yield a `[]interface{}`), arithmetic on
+`interface{}` operands, calls with retyped non-literal arguments.  `EnvConforms2`: the environment holds, under every name the checker types as a scalar or a
 slice of scalars, a value of that type (for a slice: the element tag and every element).  The tolerated
 failures are the value-dependent ones, `ValueDep`: division by zero, index out of range, memory budget. -/
 
@@ -628,7 +634,9 @@ example : inFrag2 false exprColl = true ∧ typed2 (cfgWith .asIs) [] exprColl =
     inFrag2 true exprFsCond = true ∧ typed2 (cfgWith .asIs) [] exprFsCond = true ∧
     (check (cfgWith .asIs) exprFsCond).okType = some (some .string) ∧
     -- the excluded constructs are outside the predicates
-    inFrag2 true exprFilter = false ∧ typed2 (cfgWith .asIs) [] exprFs1 = false ∧
+    -- `filter`: in the fragment under the documented rule (`[]interface{}`), not under the code's (`[]T`)
+    typed2 (cfgWith .asIs) [] exprFilter = false ∧ typed2 (cfgWith .repaired) [] exprFilter = true ∧
+    inFrag2 false exprFilter = true ∧ typed2 (cfgWith .asIs) [] exprFs1 = false ∧
     typed2 (cfgWith2 .asIs) [] exprFfPlusI = false ∧
     typed2 (cfgWith3 .asIs) [] exprAnyTimes1 = false ∧ typed2 (cfgWith .asIs) [] exprIntsA = false := by
   decide +kernel
